@@ -25,7 +25,7 @@ CLAIMS = {
  "C05": ("TLC model checking of Reopen.tla (instances x processes x sequence counter) and FsDb.tla with Close/Open at every position + replay in real OS processes; a TLAPS proof of LastWriteWins for any number of instances, keys, processes and steps (proofs/ReopenProof.tla)",
          "Every script of open/close/write/delete/new-process over 1-2 database instances up to the stated length is enumerated by TLC and executed in fresh child processes over the same directories; in-process Close/Open is inserted at every position of transactional histories.", "6 C05"),
  "C06": ("controlled-scheduler executions of the real code (all schedules up to a preemption bound + seeded random) validated by TLC against LinTrace.tla: linearizability w.r.t. the L0 promise; deadlock = all actors blocked",
-         "Small concurrent client programs (2-4 clients, autocommit and RU/RC transactions, a collector actor, shared keys) run with every gate of fs_db as a scheduling point; TLC searches a linearisation of each recorded call/return history; a panic or an all-blocked state is a violation. The same check judges free-running executions (ordinary goroutines, inline and through gRPC, contents up to 150 000 bytes, many overlapping reads). Recorded defect: a read overtaken by cleanup returns ErrNotFound (known finding, recognised by its schedule and its outcome).", "6 C06"),
+         "Small concurrent client programs (2-4 clients, autocommit and RU/RC transactions, a collector actor, shared keys) run with every gate of fs_db as a scheduling point; TLC searches a linearisation of each recorded call/return history; a panic or an all-blocked state is a violation. The same check judges free-running executions (ordinary goroutines, inline and through gRPC, contents up to 150 000 bytes, many overlapping reads). The defect these executions found (a read overtaken by an overwrite and a collection answered ErrNotFound) was kept as a known finding, recognised by schedule and outcome, and is repaired now (model.ContentGuard; constant ContentGuard of FsDbConc.tla).", "6 C06"),
  "C07": ("as C06, programs of 2-3 concurrently committing snapshot transactions with intersecting write sets (plus autocommit writers); the L0 conflict rule under linearisation decides first-committer-wins; a TLAPS proof that test-and-publish in one critical section gives first-committer-wins for any number of transactions and keys (proofs/CommitProof.tla)",
          "Every interleaving of the commit micro-steps (registry delete, conflict check, sequence draws, publication, unlink) up to the preemption bound is executed on the real code.", "6 C07"),
  "C08": ("as C06, programs of snapshot readers x multi-key committers x autocommit writers x collector; Begin of a snapshot transaction may linearise after its return (consistency and stability, not recency); a TLAPS proof of all-or-none, stable views and horizon-below-every-open-snapshot for the repaired design with any number of committers, snapshots and keys (proofs/SnapshotProof.tla)",
